@@ -16,7 +16,7 @@ LEMMAS = {
 def run_slab_model(wd, thorough):
     cfg = os.path.join(wd, 'SlabLayoutMC.cfg')
     lens = '1..2048' if thorough else '{1, 2, 3, 4, 7, 10, 33, 50, 100, 319, 320, 321, 1000, 2047, 2048}'
-    open(cfg, 'w').write('CONSTANT NeedleLens = %s\nINIT Init\nNEXT Next\nINVARIANTS LayoutSafeAscii LayoutSafeUnicode WidthMonotone\nCHECK_DEADLOCK FALSE\n' % lens)
+    open(cfg, 'w').write('CONSTANT NeedleLens %s\nINIT Init\nNEXT Next\nINVARIANTS LayoutSafeAscii LayoutSafeUnicode WidthMonotone\nCHECK_DEADLOCK FALSE\n' % ('<- AllNeedleLens' if thorough else '= ' + lens))
     rc, out = tlc('SlabLayoutMC.tla', cfg=cfg, workers=NCPU, timeout=6000, xmx='8g')
     st = tlc_stats(out)
     if tlc_failed(rc, out) or not st['completed'] or 'is violated' in out:
